@@ -96,15 +96,46 @@ class Model:
         pr = P.Prov(fn)
         ok = False
         r = pr.local(0)
-        if r[0] == "call" and r[1] == "<std::string::String as std::fmt::Display>::fmt" and len(r[2]) == 2 and P.strip(r[2][1]) == ("param", 2):
-            s = P.strip(r[2][0], calls=False)
-            if s[0] == "call" and s[1].rsplit("::", 1)[-1] == "to_string" and s[2]:
-                c = P.strip(s[2][0], calls=False)
-                if c[0] == "call" and c[2] and P.strip(c[2][0]) == ("param", 1):
-                    tgt = F.impl_fn(f"std::convert::From<&{adt}>", "char", "from").path
-                    blk = fn.blocks[c[3]]["term"]["callee"]
-                    bounds = [b.get("method") for b in blk.get("bound_impls", [])]
-                    ok = c[1] == tgt or tgt in bounds
+        tgt = F.impl_fn(f"std::convert::From<&{adt}>", "char", "from").path
+
+        def is_char_of_self(c):
+            c = P.strip(c, calls=False)
+            if not (c[0] == "call" and c[2] and P.strip(c[2][0]) == ("param", 1)):
+                return False
+            blk = fn.blocks[c[3]]["term"]["callee"]
+            bounds = [b_.get("method") for b_ in blk.get("bound_impls", [])]
+            return c[1] == tgt or tgt in bounds
+
+        def is_f(t_):
+            return P.strip(t_) == ("param", 2)
+        straight = not fn.cfg.has_loops() and not any(b_["term"]["k"] == "switch" for i_, b_ in enumerate(fn.blocks) if i_ in fn.cfg.reachable)
+        if straight and r[0] == "call":
+            nm = r[1].rsplit("::", 1)[-1]
+            if r[1] == "<std::string::String as std::fmt::Display>::fmt" and len(r[2]) == 2 and is_f(r[2][1]):
+                # char::from(self).to_string().fmt(f)
+                s_ = P.strip(r[2][0], calls=False)
+                ok = s_[0] == "call" and s_[1].rsplit("::", 1)[-1] == "to_string" and bool(s_[2]) and is_char_of_self(s_[2][0])
+            elif r[1] == "<char as std::fmt::Display>::fmt" and len(r[2]) == 2 and is_f(r[2][1]):
+                ok = is_char_of_self(r[2][0])
+            elif r[1].startswith("std::fmt::Formatter") and nm in ("pad", "write_str") and len(r[2]) == 2 and is_f(r[2][0]):
+                # f.pad(c.encode_utf8(..)): what str's Display does
+                e_ = P.strip(r[2][1], calls=False)
+                ok = e_[0] == "call" and e_[1].rsplit("::", 1)[-1] == "encode_utf8" and bool(e_[2]) and is_char_of_self(e_[2][0])
+            elif nm == "write_char" and len(r[2]) == 2 and is_f(r[2][0]):
+                ok = is_char_of_self(r[2][1])
+            elif nm == "write_fmt" and len(r[2]) == 2 and is_f(r[2][0]):
+                # write!(f, "{}", c)
+                a_ = P.strip(r[2][1], calls=False)
+                if a_[0] == "call" and a_[1].rsplit("::", 1)[-1] in ("new", "new_v1", "new_const") and len(a_[2]) >= 2:
+                    tmpl, args = P.strip(a_[2][0]), P.strip(a_[2][1])
+                    try:
+                        pieces = fmt.decode(tmpl[1]) if tmpl[0] == "bytes" else None
+                    except fmt.BadTemplate:
+                        pieces = None
+                    if pieces and len(pieces) == 1 and pieces[0][0] != "lit" and pieces[0][2:] == (None, None, None) and \
+                            args[0] == "agg" and args[1] == "array" and len(args[2]) == 1:
+                        av = P.strip(args[2][0], calls=False)
+                        ok = av[0] == "call" and av[1].rsplit("::", 1)[-1] == "new_display" and bool(av[2]) and is_char_of_self(av[2][0])
         self.checked_atomic[adt] = (ok, fn)
         return ok, fn
 
@@ -193,7 +224,7 @@ class Model:
         if adt in (RANK, SUIT):
             ok, fn = self.atomic_ok(adt)
             if not ok:
-                raise U("C06.display-model", f"Display for {adt} is not `char::from(self).to_string().fmt(f)`", fn)
+                raise U("C06.display-model", f"Display for {adt} does not write exactly char::from(self) (to_string().fmt(f), f.pad / write_char / write!))", fn)
             return [([], [("rank" if adt == RANK else "suit", norm(self_term))], [])]
         if adt == "f32":
             return [([], [("f32", norm(self_term))], [])]
